@@ -241,10 +241,21 @@ class Builder:
         if join:
             self.post(alias, "JOIN #c")
 
+    def services(self):
+        """A services link `svc`: it receives a copy of most state changes (sendServices). Its lines are
+        judged by the property predicate only (the model does not predict them)."""
+        self.add({"op": "config", "toml": OPER_TOML})
+        self.add({"op": "create_session", "as": "svc"})
+        self.post("svc", "PASS services=svcpw")
+        self.post("svc", "SERVER services.example 1 :Services")
+        self.has_services = True
+
     def final_gets(self, aliases, ms, bg=()):
         """Ends the program: for every live session a sentinel request is posted and its whole stream is
         read until the sentinel's reply arrives (step `drain` of harness/lines; deadline `ms`)."""
         self.drains = {}
+        if getattr(self, "has_services", False):
+            aliases = list(aliases) + ["svc"]
         for a in aliases:
             self.drains[a] = self.streams[a] = self.add({"op": "drain", "session": a, "ms": ms})
         for a in bg:
@@ -255,17 +266,17 @@ class Builder:
 
 
 OPER_TOML = ('SessionExpiration = "30m0s"\nPostMessageCooloff = "0s"\n'
-             '[IRC]\n[[IRC.Operators]]\nName = "root"\nPassword = "rootpw"\n')
+             '[IRC]\n[[IRC.Operators]]\nName = "root"\nPassword = "rootpw"\n'
+             '[[IRC.Services]]\nPassword = "svcpw"\n')
 
 
 def kind_setup(b, kind, subject_nick):
     """Brings the program into the sender state `kind`; returns the Start state (flags) for the trace."""
+    b.services()
     b.session("bob", "bob")
     if kind == "unreg":
         b.add({"op": "create_session", "as": "sub"})
         return
-    if kind == "oper":
-        b.add({"op": "config", "toml": OPER_TOML})
     b.session("sub", subject_nick)
     if kind == "oper":
         b.post("sub", "OPER root rootpw")
@@ -388,6 +399,7 @@ class DyingPlan:
         self.rnd = rnd
         self.b = Builder("c15-die-%s-%d" % (kind, shard), rnd)
         self.records = []
+        self.b.services()
         self.b.session("bob", "bob")
         self.n = 0
         for case in cases:
@@ -495,7 +507,8 @@ class Judge:
                 self.sig_seen[sig] = n + 1
                 if n < 1:
                     self.ctx.violation(sig, "line delivered to %s violates C15 (%s): %d bytes %r" % (
-                                       {"self": "the sender", "other": "ANOTHER session", "vic": "ANOTHER session"}.get(origin["rcpt"], "a session"),
+                                       {"self": "the sender", "other": "ANOTHER session", "vic": "ANOTHER session",
+                                        "services": "the services link"}.get(origin["rcpt"], "a session"),
                                        f, len(b), b[:160]),
                                        {"program": origin.get("prog"), "case": origin.get("case"), "sent": origin.get("text"),
                                         "op": origin["op"], "recipient": origin["rcpt"], "line": data})
@@ -523,6 +536,7 @@ def harvest(ctx, plan, recs, judge, srvname):
     out = []
     cur = None
     judged = set()
+    idinfo = {}
     for rec in plan.records:
         if rec["ev"] == "Start":
             cur = rec
@@ -555,6 +569,7 @@ def harvest(ctx, plan, recs, judge, srvname):
             if rec["op"] == "big" and (status != 400 or r["delta"]["raft"] != 0):
                 ctx.drift("body beyond 2048 bytes was not refused: %s status %s" % (rec["id"], status))
             if rid is not None:
+                idinfo[rid] = rec
                 who = {"self": cur["_subject"], "other": "bob", "vic": rec.get("_vic")}
                 for rcpt, alias in who.items():
                     if alias is None or alias not in idx_lines:
@@ -576,7 +591,9 @@ def harvest(ctx, plan, recs, judge, srvname):
             key = (alias, ln["id"], ln["reply"])
             if key not in judged:
                 judged.add(key)
-                judge.check(ln["data"], {"op": "setup", "rcpt": "any", "prog": b.name, "case": None, "text": None})
+                src = idinfo.get(ln["id"])
+                judge.check(ln["data"], {"op": src["op"] if src else "setup", "rcpt": "services" if alias == "svc" else "any",
+                                         "prog": b.name, "case": src["id"] if src else None, "text": src.get("_text") if src else None})
     return out
 
 
@@ -633,7 +650,7 @@ def json_bytes(obj_items):
 
 def fuzz_program(ctx, name, rnd, cmds, nsteps):
     b = Builder(name, rnd)
-    b.add({"op": "config", "toml": OPER_TOML})
+    b.services()
     b.session("bob", "bob")
     subs = ["fa", "fb", "fc", "fd"]
     b.session("fa", "fuzza")
@@ -981,7 +998,7 @@ def run(ctx):
 
     ctx.assumptions += [
         "single-node rig: real raft + DispatchPublic + FSM + output stream in-process (plain HTTP, no bridge); lines are judged as returned by GET .../messages",
-        "services links (server-to-server sessions) are not exercised; their pseudo-clients' user/host names come from the trusted services peer",
+        "a services link listens in every program and its lines are judged by the predicate, but not predicted by the model; lines SENT by a services peer (pseudo-clients' user/host names) are trusted input and not exercised",
         "class abstraction: ordinary bytes are represented by a seeded sample of ASCII punctuation/letters/control bytes and 2-4 byte runes; the fuzz part covers arbitrary bytes without a model",
     ]
 
